@@ -13,8 +13,11 @@ from pathlib import Path
 from . import SRC
 
 VERIF = Path(__file__).resolve().parent.parent
-EVIDENCE_DIR = VERIF / "evidence"
-REPLAY_DIR = VERIF / "replays"
+# VERIF_OUT redirects evidence and replay artefacts (used only by the mutation driver, so that
+# runs against seeded changes never overwrite the evidence of the real tree)
+_OUT = Path(os.environ["VERIF_OUT"]) if os.environ.get("VERIF_OUT") else VERIF
+EVIDENCE_DIR = _OUT / "evidence"
+REPLAY_DIR = _OUT / "replays"
 FINDINGS_FILE = VERIF / "known_findings.json"
 EVIDENCE_SCHEMA = VERIF / "schemas" / "EVIDENCE.schema.json"
 PY = "/venv/bin/python"
@@ -347,7 +350,7 @@ class Reporter:
             "wall_s": round(time.time() - self.t0, 3),
             "violations": n_viol,
         }
-        EVIDENCE_DIR.mkdir(exist_ok=True)
+        EVIDENCE_DIR.mkdir(parents=True, exist_ok=True)
         path = EVIDENCE_DIR / f"{self.pid}.json"
         text = json.dumps(ev, indent=1, ensure_ascii=False, default=str)
         import jsonschema
